@@ -79,25 +79,23 @@ def ts_arg(ts):
                                    np.concatenate([y, -np.ones(ok.sum())]))
         X, y = _MEM["mem-invalid"]
         return (X.copy(), y.copy())
-    if ts == "mem1-kept":
-        # a caller who loads the training set once and hands the very same
-        # tuple to every rating of one history
-        if "t" not in _KEPT:
-            X, y = ts_arg("mem1")
-            _KEPT["t"] = (X, y)
-        return _KEPT["t"]
     return ts
 
 
-# the tuple behind "mem1-kept"; emptied when a history starts
-_KEPT = {}
+def kept_tuple(idnt):
+    """"mem1-kept": a caller who loads the training set once and hands the
+    very same tuple to every rating of one curve (kept with the curve, so
+    that every history has a tuple of its own)"""
+    if "_verif_kept" not in idnt.__dict__:
+        idnt.__dict__["_verif_kept"] = ts_arg("mem1")
+    return idnt.__dict__["_verif_kept"]
 
 
-def kept_digest():
-    if "t" not in _KEPT:
+def kept_digest(idnt):
+    if "_verif_kept" not in idnt.__dict__:
         return None
     import hashlib
-    X, y = _KEPT["t"]
+    X, y = idnt.__dict__["_verif_kept"]
     return hashlib.sha1(np.ascontiguousarray(X).tobytes()
                         + np.ascontiguousarray(y).tobytes()).hexdigest()[:12]
 
@@ -256,7 +254,6 @@ class Driver(hist.Driver):
 
     def fresh(self):
         ensure_user_ts()
-        _KEPT.clear()
         tr = synth.truth_params("hertz_para", E=3000.0, contact_point=2e-7,
                                 baseline=1e-10)
         idnt = synth.make_curve("hertz_para", tr, n_app=self.n_app,
@@ -280,12 +277,13 @@ class Driver(hist.Driver):
             return {"ok": exc is None, "exc": exc, "minimize": 0,
                     "trainings": 0, "ret": None}
         if op[0] == "R":
-            op = ["R", op[1], ts_arg(op[2]), op[3], op[4]]
+            ts = kept_tuple(idnt) if op[2] == "mem1-kept" else ts_arg(op[2])
+            op = ["R", op[1], ts, op[3], op[4]]
         return ops.apply_op(idnt, op)
 
     def canon(self, idnt):
         c = cn.indent_canon(idnt)
-        kd = kept_digest()
+        kd = kept_digest(idnt)
         return c if kd is None else c + ":" + kd
 
     def pre_info(self, idnt, op):
